@@ -362,9 +362,11 @@ func verifHosts(l *roundRobinLoadBalancer) []*Host { return l.hosts.Load().([]*H
 //@   local $crCached bool = false
 //@   local $crOrderOK bool = true
 //@   local $crReprepared bool = false
+//@   local $crExamined bool = false
 //@   requires c != nil && c.pending != nil && c.codec != nil && c.conn != nil && c.closingMu != nil && nolocks() && !$arrived
 //@   after frame.RawCodec.DecodeRawFrame#1 set $crDecoded = (result1 == nil); $crStream = result0.Header.StreamId; $crOpCode = result0.Header.OpCode; $arrived = (result1 == nil); $arrivedStream = result0.Header.StreamId
 //@   before proxycore.ClientConn.maybeCachePrepared#* set $crCached = true
+//@   before proxycore.ClientConn.maybePrepareAndExecute#1 set $crExamined = true
 //@   after proxycore.ClientConn.maybePrepareAndExecute#1 set $crReprepared = result
 //@   before proxycore.Request.OnResult#1 set $crDelivered = true; $crTarget = valof(recv); $crOrderOK = ($crOpCode != primitive.OpCodeResult || $crCached || c.preparedCache == nil)
 // C08: a RESULT (possibly the answer to a PREPARE) is looked at by the prepared cache before the request - and
@@ -377,6 +379,7 @@ func verifHosts(l *roundRobinLoadBalancer) []*Host { return l.hosts.Load().([]*H
 //@   ensures entry-removed: $crDecoded && $crOpCode != primitive.OpCodeEvent && 0 <= $crStream && $crStream < MaxStreams && old(c.pending.$has)[$crStream] ==> result == nil
 //@   ensures events-not-delivered: $crDecoded && $crOpCode == primitive.OpCodeEvent ==> !$crDelivered
 // C01 "never none": a response to a pending request is handed to that request - or has started its re-preparation
+//@   ensures errors-examined-before-delivery: $crDelivered && $crOpCode == primitive.OpCodeError && c.preparedCache != nil ==> $crExamined [C08]
 //@   ensures delivered-or-reprepared: $crDecoded && $crOpCode != primitive.OpCodeEvent && 0 <= $crStream && $crStream < MaxStreams && old(c.pending.$has)[$crStream] ==> $crDelivered || $crReprepared [C01]
 //@   modifies *, c.pending.$has, c.pending.$tag, c.pending.$val, $arrived, $arrivedStream
 
@@ -391,11 +394,16 @@ func verifHosts(l *roundRobinLoadBalancer) []*Host { return l.hosts.Load().([]*H
 //@   local $mpCached bool = false
 //@   local $mpSent bool = false
 //@   local $mpSendOK bool = false
+//@   local $mpTried bool = false
 //@   requires c != nil && c.pending != nil && c.codec != nil && c.conn != nil && c.closingMu != nil && c.preparedCache != nil && raw != nil && raw.Header != nil && request != nil
 //@   requires well-formed-request: reqOK(request) [C17]
+//@   before frame.RawCodec.ConvertFromRawFrame#1 set $mpTried = true
 //@   after frame.RawCodec.ConvertFromRawFrame#1 set $mpDecoded = (result1 == nil); $mpMsg = result0.Body.Message
 //@   after proxycore.PreparedCache.Load#1 set $mpCached = result1
 //@   after proxycore.ClientConn.Send#1 set $mpSent = true; $mpSendOK = (result == nil)
+// C08 "the client never sees UNPREPARED while the statement is cached": every error answer to anything but a
+// re-prepare is decoded and looked at
+//@   ensures error-is-examined: !typeis(request, *proxycore.prepareRequest) ==> $mpTried [C08]
 //@   ensures not-unprepared: !$mpDecoded || !typeis($mpMsg, *message.Unprepared) ==> !result && !$mpSent
 //@   ensures not-cached: $mpDecoded && typeis($mpMsg, *message.Unprepared) && !$mpCached ==> !result && !$mpSent
 //@   ensures re-prepared: $mpDecoded && typeis($mpMsg, *message.Unprepared) && $mpCached ==> $mpSent && result == $mpSendOK
@@ -966,13 +974,20 @@ func verifHosts(l *roundRobinLoadBalancer) []*Host { return l.hosts.Load().([]*H
 //@   local $adWasCancelled bool = false
 //@   local $adCancels int = 0
 //@   local $adCancelledNew bool = true
+//@   local $rmTried bool = false
+//@   local $rmFound bool = false
+//@   local $rmPool interface{} = nil
+//@   local $rmCancelledIt bool = false
 //@   requires s != nil && s.config.ReconnectPolicy != nil && s.config.NumConns >= 0
 //@   before sync.Map.LoadOrStore#* set $poolFiledNil = $poolFiledNil || arg2 == nil || valof(arg2) == 0
 //@   after sync.Map.LoadOrStore#1 set $adFiled = true; $adLoaded = result1; $adActual = result0; $adNew = arg2; $adWasCancelled = cancelled(as(result0, *connPool).cancel)
 //@   ensures files-only-pools: !$poolFiledNil
 //@   ensures announced-host-gets-a-pool: typeis(event, *AddEvent) ==> $adFiled [C16]
+//@   after sync.Map.LoadAndDelete#1 set $rmTried = true; $rmFound = result1; $rmPool = result0
+//@   before context.CancelFunc#* set $rmCancelledIt = $rmCancelledIt || (typeis($rmPool, *connPool) && recv == as($rmPool, *connPool).cancel)
 //@   before context.CancelFunc#* set $adCancels = $adCancels + 1; $adCancelledNew = $adCancelledNew && typeis($adNew, *connPool) && recv == as($adNew, *connPool).cancel
 //@   ensures filed-pool-left-alone: typeis(event, *AddEvent) ==> ($adLoaded ==> $adCancelledNew) && (!$adLoaded ==> $adCancels == 0) [C16]
+//@   ensures removed-host-loses-its-pool: typeis(event, *RemoveEvent) ==> $rmTried && ($rmFound ==> $rmCancelledIt) [C16]
 //@   ensures superfluous-pool-cancelled: typeis(event, *AddEvent) && $adLoaded && typeis($adNew, *connPool) && as($adNew, *connPool) != nil && $adNew != $adActual ==> cancelled(as($adNew, *connPool).cancel) [C16]
 //@   modifies *
 
